@@ -94,12 +94,10 @@ def inproc(ctx):
         evs = F.flatten(fo)
         ms = cfg.get("max_stack") or 1024
         thr = cfg.get("threshold") or 0
-        chk = positive(fo) or thr > 0
+        chk = True
         # with a threshold the overflow flush forces records (modelled, not in the spec): correspondence only
         if thr > 0 and height(fo) > ms:
             chk = False
-        if thr == 0 and not positive(fo):
-            chk = False   # zero-duration calls are dropped even with threshold 0 (C02_zero_duration; model-faithful)
         tags = []
         if height(fo) > ms:
             tags.append("overflow")
@@ -130,9 +128,7 @@ def inproc(ctx):
             if "fast" in variant:
                 cfg.pop("depth", None)      # the fast variants have no depth filter
             add(cfg, fo, F.flatten(fo), "variant", variant=variant,
-                check=(positive(fo) or (cfg.get("threshold") or 0) > 0) and
-                not ((cfg.get("threshold") or 0) > 0 and height(fo) > (cfg.get("max_stack") or 1024))
-                and ((cfg.get("threshold") or 0) > 0 or positive(fo)))
+                check=not ((cfg.get("threshold") or 0) > 0 and height(fo) > (cfg.get("max_stack") or 1024)))
     # 5. filtered recordings (any -F/-N/-C/-D/-t/-Z and depth=/time=/size=/trace triggers, no trace_on/off):
     #    the stream must be an embedded sub-history (theorem C02_filtered_trace_is_subhistory, checker ok_emb)
     from . import c05 as _c05
@@ -214,6 +210,34 @@ def depth_field_regression(ctx):
             ctx.violation("--max-stack=2000, deep recursion: %s" % ("model and libmcount disagree" if k.startswith("agree")
                           else "the stream is not the history pruned at depth 1024"),
                           {"item": k, "note": "cases: 1100 pg, 1100 cyg, 1025 pg, 1023 pg (in this order)"}, False)
+
+
+def zero_duration_regression(ctx):
+    """repaired defect zero-duration-dropped (/repo: end - start >= threshold): a call whose entry and exit hooks read the
+    same clock value is recorded like any other, also when it runs exactly the -t threshold"""
+    h = mch.Harness(ctx)
+    items, defs = [], ""
+    for n, (thr, fo) in enumerate([
+            (0, [F.Call(0, 10, 20, [F.Call(1, 12, 12), F.Call(2, 13, 14)])]),
+            (0, [F.Call(0, 10, 10)]),
+            (5, [F.Call(0, 10, 40, [F.Call(1, 12, 17), F.Call(2, 20, 24), F.Call(3, 30, 36)])])]):
+        cfg = {"shape": "pg" if n != 1 else "cyg", "trig": {}}
+        if thr:
+            cfg["threshold"] = thr
+        res = mcgen.run_case(h, cfg, F.flatten(fo))
+        defs += "Definition c%d := %s.\nDefinition chk%d := %s.\n" % (n, mcgen.case_term(cfg, F.flatten(fo), res),
+                                                                     n, coq_plain_check(cfg, fo, res["recs"]))
+        items += [("agree%d" % n, "agree4 c%d" % n), ("ok%d" % n, "chk%d" % n)]
+        ctx.case(key="zero-duration-%d" % n, tags=["zero-duration" if not thr else "exactly-threshold"], size=2 * len(F.flatten(fo)))
+    r = coq.run_cases(ctx, "c02_zero", mcgen.PRE, defs, items, timeout=600)
+    if r is None:
+        return
+    for k, _ in items:
+        if r[k] != "true":
+            ctx.violation("zero-duration / exactly-threshold call: %s" % ("model and libmcount disagree" if k.startswith("agree")
+                          else "a call whose two clock readings are equal (or that runs exactly the threshold) is not recorded"),
+                          {"item": k, "cases": "0: main{f1 [12,12]; f2 [13,14]} -t 0; 1: main [10,10] cyg; 2: -t 5 with calls of 5, 4, 6 ticks"},
+                          not k.startswith("agree"))
 
 
 def threads_and_fork(ctx):
@@ -642,6 +666,7 @@ def run(ctx):
     objdir = build.get_build("plain", ctx.log)
     inproc(ctx)
     depth_field_regression(ctx)
+    zero_duration_regression(ctx)
     threads_and_fork(ctx)
     e2e(ctx, objdir)
 
